@@ -572,6 +572,12 @@ def cross_check(results):
             for i, (a, b) in enumerate(zip(ref["steps"], other["steps"])):
                 if tsteps[i].get("fault"):
                     continue   # the executed lines legitimately differ between import styles
+                if a.get("rng_before") != b.get("rng_before"):
+                    # an earlier crash fired at a different point of the two import styles and
+                    # consumed a different amount of the shared stream: the inputs of this
+                    # step differ, so its outputs may (each world is still held to its own
+                    # pristine evaluation by the refinement oracle)
+                    continue
                 if (a.get("ok"), a.get("exc"), a.get("digest")) != (b.get("ok"), b.get("exc"), b.get("digest")):
                     st = other["job"]["trace"]["steps"][i]
                     out.append((other, {"oracle": "import_identity", "step": i, "prop": PROP,
